@@ -12,10 +12,11 @@ git -C /repo worktree add --detach -q "$S/repo" HEAD || exit 2
 cleanup() { git -C /repo worktree remove --force "$S/repo" 2>/dev/null; rm -rf "$S"; }
 trap cleanup EXIT
 if [ "$PATCH" != "/dev/null" ]; then git -C "$S/repo" apply "$PATCH" || { echo "SWEEP $LABEL - patch does not apply"; exit 2; }; fi
-cp -r /verif/shadow "$S/verif/shadow"
+B="${SWEEP_BASE:-/verif}"
+cp -r "$B/shadow" "$S/verif/shadow"
 mkdir -p "$S/verif/sim" "$S/verif/evidence"
-cp -r /verif/sim/src /verif/sim/Cargo.toml /verif/sim/Cargo.lock "$S/verif/sim/"
-cp /verif/known_findings.json /verif/MANIFEST.json /verif/properties.jsonl "$S/verif/"
+cp -r "$B/sim/src" "$B/sim/Cargo.toml" "$B/sim/Cargo.lock" "$S/verif/sim/"
+cp "$B/known_findings.json" "$B/MANIFEST.json" "$B/properties.jsonl" "$S/verif/"
 sed -i "s#/repo/src/lib.rs#$S/repo/src/lib.rs#" "$S/verif/shadow/Cargo.toml"
 export CARGO_NET_OFFLINE=true VERIF_ROOT="$S/verif"
 JOBS="${SWEEP_JOBS:-8}"
